@@ -2575,6 +2575,11 @@ class UTPM(Ring, RawAlgorithmsMixIn):
             xbar = out[0]
 
         cls._pb_reshape(ybar.data, x.data, y.data, out = xbar.data)
+
+        # reshape of non-contiguous data (e.g. of a transposed array) returns
+        # a copy: then ybar is not a view of xbar and has to be added
+        if not numpy.shares_memory(ybar.data, xbar.data):
+            xbar.data[...] += numpy.reshape(ybar.data, x.data.shape)
         return xbar
 
 
